@@ -39,6 +39,7 @@ import (
 	"github.com/evanw/esbuild/internal/resolver"
 	"github.com/evanw/esbuild/internal/runtime"
 	"github.com/evanw/esbuild/internal/sourcemap"
+	"github.com/evanw/esbuild/internal/verifhook"
 	"github.com/evanw/esbuild/internal/xxhash"
 )
 
@@ -4670,6 +4671,7 @@ func (c *linkerContext) generateCodeForFileInChunkJS(
 	dataForSourceMaps []bundler.DataForSourceMap,
 ) {
 	defer c.recoverInternalError(waitGroup, partRange.sourceIndex)
+	verifhook.Yield("print")
 
 	file := &c.graph.Files[partRange.sourceIndex]
 	repr := file.InputFile.Repr.(*graph.JSRepr)
@@ -5567,6 +5569,7 @@ func (c *linkerContext) renameSymbolsInChunk(chunk *chunkInfo, filesInOrder []ui
 
 func (c *linkerContext) generateChunkJS(chunkIndex int, chunkWaitGroup *sync.WaitGroup) {
 	defer c.recoverInternalError(chunkWaitGroup, runtime.SourceIndex)
+	verifhook.Yield("chunk")
 
 	chunk := &c.chunks[chunkIndex]
 
@@ -6097,6 +6100,7 @@ type compileResultCSS struct {
 
 func (c *linkerContext) generateChunkCSS(chunkIndex int, chunkWaitGroup *sync.WaitGroup) {
 	defer c.recoverInternalError(chunkWaitGroup, runtime.SourceIndex)
+	verifhook.Yield("chunk")
 
 	chunk := &c.chunks[chunkIndex]
 
